@@ -188,7 +188,9 @@ def approx(a, b):
 def gen_case(rng):
     return {"seed": rng.getrandbits(48), "length": rng.choice([300, 400, 500]), "pseudogene": rng.random() < 0.65,
             "strands": rng.choice(["++", "+-", "-+", "--"]), "build": rng.choice(["hg19", "hg38"]),
-            "ks": rng.sample([2, 3, 4, 5], 2), "uniform": rng.random() < 0.2, "custom_neutral": rng.random() < 0.5}
+            "ks": rng.sample([2, 3, 4, 5], 2), "uniform": rng.random() < 0.2, "custom_neutral": rng.random() < 0.5,
+            # a neutral region NARROWER than the reads: every read that touches it runs across one or both of its borders
+            "narrow_neutral": rng.random() < 0.4}
 
 
 def run_case(chk, case, terms, post):
@@ -196,7 +198,8 @@ def run_case(chk, case, terms, post):
     import random
     from aldy.gene import Gene
     rng = random.Random(case["seed"])
-    desc_ = {"pseudogene": case["pseudogene"], "strands": case["strands"], "build": case["build"], "custom_neutral": case["custom_neutral"]}
+    desc_ = {"pseudogene": case["pseudogene"], "strands": case["strands"], "build": case["build"], "custom_neutral": case["custom_neutral"],
+             "narrow_neutral": bool(case["custom_neutral"] and case.get("narrow_neutral"))}
     with tempfile.TemporaryDirectory(dir=common.SCRATCH) as d:
         yp, desc = gendb.write_db(d, rng, name="GEN", length=case["length"], pseudogene=case["pseudogene"], strands=case["strands"])
         build = case["build"]
@@ -207,7 +210,7 @@ def run_case(chk, case, terms, post):
             ws = b["win_start"]
             lo, hi = ws + 80, b["locus"][0] - 120
             if hi - lo > 150:
-                ln = rng.randint(60, min(400, hi - lo))
+                ln = rng.randint(8, 28) if case.get("narrow_neutral") else rng.randint(60, min(400, hi - lo))
                 st = rng.randint(lo, hi - ln)
                 cn = [b["chr"], st, st + ln]
         sample_reads, depth = gen_reads(rng, b, cn, case["uniform"])
